@@ -33,6 +33,13 @@ Definition check_write (dir name : bytes) (g : guid) (attrs : N) (value : bytes)
   ok && fs_trace_eqb trace [FO_OpenFile (var_path dir name g) (open_flags attrs);
                             FO_Write (le 4 attrs ++ value)].
 
+(* ... and when that Write comes up short (Theorem C15_write_short): the same
+   calls, nothing more, and no success *)
+Definition check_write_short (dir name : bytes) (g : guid) (attrs : N) (value : bytes)
+           (ok : bool) (trace : list fs_obs) : bool :=
+  negb ok && fs_trace_eqb trace [FO_OpenFile (var_path dir name g) (open_flags attrs);
+                                 FO_Write (le 4 attrs ++ value)].
+
 (* what a read did, as observed *)
 Inductive read_obs :=
 | RO_decoded (stored : N) (value : bytes)   (* decoder called with these bytes; attributes returned *)
